@@ -176,18 +176,19 @@ def runs(present):
 
 
 def present_rows(*arrays):
-    """Row i is present unless every component of every array is NaN in row i; a row that
-    is only partly NaN is a malformed spec."""
+    """Row i is present iff the first component of the first array is not NaN (the convention of the
+    format's writers: the X coordinate / the application point's X decides).  A present row may carry
+    NaN in its other components - they are stored like any other value.  A row that is absent by this
+    rule but carries a number elsewhere would lose it: malformed spec."""
     n = len(arrays[0])
+    first = np.asarray(arrays[0]).reshape(n, -1)
+    present = ~np.isnan(first[:, 0]) if first.shape[1] else np.zeros(n, bool)
     allnan = np.ones(n, bool)
-    anynan = np.zeros(n, bool)
     for a in arrays:
-        a2 = np.asarray(a).reshape(n, -1)
-        allnan &= np.isnan(a2).all(axis=1)
-        anynan |= np.isnan(a2).any(axis=1)
-    if (anynan & ~allnan).any():
-        raise LayoutError("partly-NaN frame")
-    return ~allnan
+        allnan &= np.isnan(np.asarray(a).reshape(n, -1)).all(axis=1)
+    if (~present & ~allnan).any():
+        raise LayoutError("a frame without first component carries samples")
+    return present
 
 
 def _write_segments(w, segs):
